@@ -108,7 +108,7 @@ CATALOGUE = [
     # ---- C14
     ("C14", "process_features works on the caller's frame", "histogrammar/dfinterface/pandas_histogrammar.py", "].copy()\n", "]\n        idf = df\n", 400),
     ("C14", "get_features_specs returns empty bin_specs", "histogrammar/dfinterface/histogram_filler_base.py", "        return features, self.bin_specs, self.var_dtype, self.time_axis", "        return features, {}, self.var_dtype, self.time_axis", 400),
-    ("C14", "auto binning recomputed although the feature has specs", "histogrammar/dfinterface/histogram_filler_base.py", "            if n in bs_keys:\n                continue\n", "", 400),
+    ("C14", "auto binning recomputed although the feature has specs", "histogrammar/dfinterface/histogram_filler_base.py", "            if n in bs_keys:\n                # already provided; will pick that one up\n                continue\n", "", 400),
     ("C14", "nested histograms built in the wrong axis order", "histogrammar/dfinterface/pandas_histogrammar.py", "        revcols = list(reversed(features))", "        revcols = list(features)", 400),
     # ---- C15
     ("C15", "Bin.fromJsonFragment accepts a non-list values", P + "bin.py", "            if isinstance(json[\"values\"], list):\n                values = [valuesFactory.fromJsonFragment(x, valuesName) for x in json[\"values\"]]\n            else:\n                raise JsonFormatException(json, \"Bin.values\")",
